@@ -703,7 +703,7 @@ func (vc *FnVC) globalComp(g *ssa.Global) (comp, sort string) {
 				env := vc.newEnv(vc.entry, vc.entry)
 				env.pkg = g.Pkg.Pkg
 				dt, _ := env.resolveType(te)
-				vc.emit(eq("(if-tag "+comp+"!e0)", fmt.Sprint(vc.prog.typeTag(dt))))
+				vc.emit(eq("(if-tag "+comp+"!e0)", fmt.Sprint(vc.enc.typeTag(dt))))
 			}
 		}
 	}
